@@ -242,7 +242,7 @@ func specs(tier string, seed int64) []spec {
 	n, count := 40, 24
 	driftRates, driftN := []uint64{30_000_000, 2_400_000_000, 10_000_000_000, 100_000_000_000}, 4000
 	if tier == "thorough" {
-		n, count = 60, 400
+		n, count = 60, 160
 		driftRates, driftN = []uint64{3_000_000, 30_000_000, 300_000_000, 999_999_937, 2_400_000_000, 7_000_000_000, 10_000_000_000, 33_000_000_000, 100_000_000_000}, 40000
 	}
 	var out []spec
